@@ -69,8 +69,8 @@ func bigText() []byte {
 	return []byte(b.String())
 }
 
-func texts(scratch string) []*Text {
-	ts := []*Text{
+func texts0() []*Text {
+	return []*Text{
 		{ID: "T0", Kind: "template", data: []byte(template)},
 		{ID: "T1", Kind: "valid", data: []byte("steps:\n  - name: s1\n    command: echo one\n  - name: s2\n    command: echo two\n    depends:\n      - s1\n")},
 		{ID: "T2", Kind: "valid", data: []byte("description: second\nsteps:\n  - name: only\n    command: \"true\"\n")},
@@ -81,6 +81,10 @@ func texts(scratch string) []*Text {
 		{ID: "T7", Kind: "cyclic", data: []byte("steps:\n  - name: p\n    command: echo p\n    depends:\n      - q\n  - name: q\n    command: echo q\n    depends:\n      - p\n")},
 		{ID: "T8", Kind: "invalid-dag", data: []byte("steps: 17\n")},
 	}
+}
+
+func texts(scratch string) []*Text {
+	ts := texts0()
 	dir := filepath.Join(scratch, "oracle")
 	_ = os.MkdirAll(dir, 0o755)
 	for _, t := range ts {
@@ -637,18 +641,6 @@ func crashHelper(dir, newID string) {
 		fmt.Println("ERR", classify(err))
 	} else {
 		fmt.Println("OK")
-	}
-}
-
-// the pool without the loader verdicts (no file system use)
-func texts0() []*Text {
-	return []*Text{
-		{ID: "T0", data: []byte(template)},
-		{ID: "T1", data: []byte("steps:\n  - name: s1\n    command: echo one\n  - name: s2\n    command: echo two\n    depends:\n      - s1\n")},
-		{ID: "T2", data: []byte("description: second\nsteps:\n  - name: only\n    command: \"true\"\n")},
-		{ID: "T3", data: []byte("steps:\n  - name: [unclosed\n   command: : :\n")},
-		{ID: "T5", data: []byte("")},
-		{ID: "T6", data: bigText()},
 	}
 }
 
